@@ -82,6 +82,13 @@ theorem C07.store_refines_map (np : Bool) (s : St) (ops : List Op) :
     absGet (run np s ops) = specRun np (absGet s) ops :=
   store_refines_map_run_lem np s ops
 
+/-- … and its outputs are the map's: Remove hands back exactly the chunk held under that key (and reports a miss iff there
+    is none), List returns exactly the stream's part of the map. -/
+theorem C07.store_outputs_refine (np : Bool) (s : St) (sid seq : Nat) :
+    (∀ v, (step np s (.remove sid seq)).2 = .removed v ↔ absGet s sid seq = some v) ∧
+    (∀ m, (step np s (.list sid)).2 = .listed m → ∀ q, alGet q m = absGet s sid q) :=
+  ⟨fun v => remove_output_lem np s sid seq v, fun m h => list_output_lem np s sid m h⟩
+
 /- non-vacuity: store, overwrite, remove and clear on two streams -/
 example : absGet (run false [] [.store 1 5 [], .store 2 5 [], .remove 1 5]) 2 5 = some [] ∧
     absGet (run false [] [.store 1 5 [], .store 2 5 [], .remove 1 5]) 1 5 = none := by decide
